@@ -28,7 +28,7 @@ func init() {
 		Strata: []fw.Stratum{
 			{Name: "all-sequences-len<=2", N: fw.Const(c05ExhaustiveCount, c05ExhaustiveCount), Run: c05Exhaustive, Exhaustive: true},
 			{Name: "all-sequences-len=3", N: fw.Const(0, c05NumStarts*c05AlphabetSize*c05AlphabetSize*c05AlphabetSize), Run: c05Exhaustive3, Exhaustive: true},
-			{Name: "random-sequences", N: fw.Const(600000, 15000000), Run: c05Random},
+			{Name: "random-sequences", N: fw.Const(2000000, 20000000), Run: c05Random},
 		},
 	})
 }
